@@ -48,19 +48,6 @@ theorem for3_fold (sc : Sc) (tb : Rs.Poa.Traceback) (r v j b : Nat) (hj : 1 ≤ 
         simp only [Res.ok_bind]
         exact for3_fold sc tb r v j b hj rowsM prevs acc' res (fun q hq => hp q (List.mem_cons_of_mem _ hq)) h2
 
-theorem set_append_len {α : Type} (l : List α) (a b : α) (r : List α) : (l ++ a :: r).set l.length b = l ++ b :: r := by
-  induction l with
-  | nil => rfl
-  | cons x l ih => simp [ih]
-
-theorem getElem?_append_len {α : Type} (l : List α) (a : α) (r : List α) : (l ++ a :: r)[l.length]? = some a := by
-  induction l with
-  | nil => rfl
-  | cons x l ih => simp [ih]
-
-theorem getElem?_set_ne' {α : Type} (l : List α) (i k : Nat) (a : α) (h : i ≠ k) : (l.set i a)[k]? = l[k]? := by
-  simp [List.getElem?_set, h]
-
 /-- one column of the row of node `v` in `Poa::custom` -/
 theorem for2_step (sc : Sc) (xp : Int) (query : List Nat) (r0 : BRow) (v r n : Nat) (prevs : List Nat) (rowsM : Nat → BRow)
     (tb0 : Rs.Poa.Traceback) (M0 : List Row) (c0 : Cell) (done pad : List Cell) (k b : Nat)
@@ -156,40 +143,6 @@ theorem for2_step (sc : Sc) (xp : Int) (query : List Nat) (r0 : BRow) (v r n : N
       Rs.sub_ok (Nat.le_add_left 1 v), hset]
     exact hfin _
 
-/-- candidate and insertion scan of a row, column by column (as the Rust loop interleaves them) -/
-def colLoopC (cand : Nat → Option Cell) (gap : Int) (iOp : POp) : Cell → List Nat → Option (List Cell)
-  | _, [] => some []
-  | left, j :: js =>
-    match cand j with
-    | none => none
-    | some c =>
-      match I32.add left.score gap with
-      | none => none
-      | some s =>
-        match colLoopC cand gap iOp (cmax c ⟨s, iOp⟩) js with
-        | none => none
-        | some rest => some (cmax c ⟨s, iOp⟩ :: rest)
-
-theorem colLoopC_of (cand : Nat → Option Cell) (gap : Int) (iOp : POp) : ∀ (js : List Nat) (left : Cell) (cands cs : List Cell),
-    mapC cand js = some cands → insScanC gap iOp left cands = some cs → colLoopC cand gap iOp left js = some cs
-  | [], left, cands, cs, h1, h2 => by
-    simp only [mapC, Option.some.injEq] at h1; subst h1
-    simp only [insScanC, Option.some.injEq] at h2; subst h2; rfl
-  | j :: js, left, cands, cs, h1, h2 => by
-    obtain ⟨c, cands', hc, h1', rfl⟩ := mapC_cons_some h1
-    simp only [insScanC] at h2
-    cases hs : I32.add left.score gap with
-    | none => rw [hs] at h2; cases h2
-    | some s =>
-      rw [hs] at h2
-      simp only at h2
-      cases hr : insScanC gap iOp (cmax c ⟨s, iOp⟩) cands' with
-      | none => rw [hr] at h2; cases h2
-      | some rest =>
-        rw [hr] at h2
-        simp only [Option.some.injEq] at h2
-        simp only [colLoopC, hc, hs, colLoopC_of cand gap iOp js _ cands' rest h1' hr, h2]
-
 /-- the column loop of the row of node `v` in `Poa::custom`, from column `k + 1` on -/
 theorem for2_fold (sc : Sc) (xp : Int) (query : List Nat) (r0 : BRow) (v r n : Nat) (prevs : List Nat) (rowsM : Nat → BRow)
     (tb0 : Rs.Poa.Traceback) (M0 : List Row) (c0 : Cell)
@@ -256,38 +209,6 @@ theorem for2_fold (sc : Sc) (xp : Int) (query : List Nat) (r0 : BRow) (v r n : N
             simp only [List.append_assoc, List.singleton_append, List.cons_append, List.nil_append] at ih ⊢
             rw [ih]
             simp [colUpdate]
-
-theorem insScanC_length (gap : Int) (iOp : POp) : ∀ (cands : List Cell) (left : Cell) (cs : List Cell),
-    insScanC gap iOp left cands = some cs → cs.length = cands.length
-  | [], left, cs, h => by simp only [insScanC, Option.some.injEq] at h; subst h; rfl
-  | c :: cands, left, cs, h => by
-    simp only [insScanC] at h
-    cases hs : I32.add left.score gap with
-    | none => rw [hs] at h; cases h
-    | some s =>
-      rw [hs] at h
-      simp only at h
-      cases hr : insScanC gap iOp (cmax c ⟨s, iOp⟩) cands with
-      | none => rw [hr] at h; cases h
-      | some rest =>
-        rw [hr] at h
-        simp only [Option.some.injEq] at h
-        subst h
-        simp [insScanC_length gap iOp cands _ rest hr]
-
-theorem getD_append_default {α : Type} (l : List α) (d : α) (k : Nat) : (l ++ [d]).getD k d = l.getD k d := by
-  simp only [List.getD_eq_getElem?_getD]
-  rcases Nat.lt_or_ge k l.length with h | h
-  · rw [List.getElem?_append_left h]
-  · rw [List.getElem?_append_right h, List.getElem?_eq_none h]
-    cases k - l.length <;> simp
-
-theorem colUpdate_length (i : Nat) : ∀ (mcs : List (Int × Nat)) (cs : List Cell), (colUpdate i mcs cs).length = mcs.length
-  | [], cs => by cases cs <;> simp [colUpdate]
-  | mc :: mcs, [] => by simp [colUpdate]
-  | mc :: mcs, c :: cs => by simp [colUpdate, colUpdate_length i mcs cs]
-
-theorem enumerate_eq {α : Type} (l : List α) : Rs.enumerate l = Rs.enumFrom 0 l := rfl
 
 /-- the state of the main loop of `custom`: the Rust matrix represents row 0 and the model's rows; rows of nodes not yet
 visited (`todo`) are still as `with_capacity` left them -/
@@ -424,27 +345,6 @@ theorem for1_fold (sc : Sc) (xp : Int) (labels : List Nat) (es : WEdges) (query 
     refine ⟨tb', ?_, by rw [er2, er], by rw [ec2, ec], ?_, hsz2, hinv2⟩
     · simp only [List.foldlM_cons, e1, Res.ok_bind]; exact e2
     · rw [el2, el]; cases order <;> simp [List.getLastD]
-
-theorem bRow0C_shape {gap yclip : Int} {n : Nat} {r0 : BRow} (h : bRow0C gap yclip n = some r0) :
-    r0.start = 0 ∧ r0.stop = n + 1 ∧ r0.cells.length = n + 1 := by
-  have hb : bRow0C gap yclip n = (match I32.mul gap (I32.ofUsize 0) with
-      | none => none
-      | some _ => match mapC (row0Cell gap yclip) (List.range' 1 n) with
-        | none => none
-        | some cs => some { cells := ⟨0, .m none⟩ :: cs, start := 0, stop := n + 1 }) := rfl
-  rw [hb] at h
-  cases h0 : I32.mul gap (I32.ofUsize 0) with
-  | none => rw [h0] at h; cases h
-  | some g0 =>
-    rw [h0] at h
-    simp only at h
-    cases h1 : mapC (row0Cell gap yclip) (List.range' 1 n) with
-    | none => rw [h1] at h; cases h
-    | some cs =>
-      rw [h1] at h
-      simp only [Option.some.injEq] at h
-      subst h
-      simp [mapC_length h1]
 
 /-- **the dynamic-programming phase of the translated `Poa::custom`** (`with_capacity`, `initialize_scores`, the loop over the
 topological order with `new_row`, the predecessor maximisation, the insertion scan, `set`, `max_in_column`) computes the
